@@ -647,4 +647,101 @@ def wallets(ctx):
     return st
 
 
-SUBS = [("derive", derive), ("special_forms", special_forms), ("corruption", corruption), ("multipath", multipath), ("wallets", wallets)]
+# ------------------------------------------------------------------------------------------------ BIP44 accounts and Core import
+def accounts_and_import(ctx):
+    """address_from_der_path and account_descriptors from the master key, from the account key and from every key between,
+    for the four purposes on both networks, against hand assembly; and the Core import requests built from them."""
+    from btclib import bip44, core_import
+    from btclib.descriptors.descriptors import account_descriptors
+
+    st = Stats()
+    errs = lib_errors()
+    seed = b"\x0b" * 32
+    mk = {44: lambda k: b"\x76\xa9" + push(h160(k)) + b"\x88\xac", 49: lambda k: p2sh(b"\x00" + push(h160(k))), 84: lambda k: b"\x00" + push(h160(k)), 86: lambda k: p2tr(k[1:])}
+    for serving in (True, False):
+        with backend(serving):
+            for net in ("mainnet", "testnet"):
+                coin = 0 if net == "mainnet" else 1
+                for purpose in (44, 49, 84, 86):
+                    for account in (0, 1, 2**31 - 1):
+                        full = (purpose + H, coin + H, account + H)
+                        acct = Tree(seed, path=full)
+                        starts = [("master", Tree(seed, path=())), ("purpose", Tree(seed, path=full[:1])), ("coin", Tree(seed, path=full[:2])), ("account", acct)]
+                        for sname, t in starts:
+                            for keyform in ("xprv", "xpub"):
+                                if keyform == "xpub" and sname != "account":
+                                    continue   # hardened steps remain: a public key cannot take them
+                                xk = _xkey_text(t, net, keyform == "xprv")
+                                for b, i in ((0, 0), (1, 0), (0, 7), (1, 2**31 - 1)):
+                                    st.evals += 1
+                                    if sname != "account" or (b, i) != (0, 0):
+                                        st.nontrivial += 1
+                                    path = f"m/{purpose}h/{coin}h/{account}h/{b}/{i}"
+                                    exp = address(mk[purpose](acct.child_pub([b, i])), net)
+                                    case = {"purpose": purpose, "network": net, "account": account, "from": sname, "key": keyform, "path": path, "bindings": serving}
+                                    try:
+                                        got = bip44.address_from_der_path(xk, path)
+                                    except errs as e:
+                                        got = "refused " + repr(e)[:60]
+                                    if got != exp:
+                                        st.violation("C14/bip44/address-differs-from-hand-assembly", case, got, exp)
+                                # the account's two descriptors derive the same scripts, and their text is what Core is asked to import
+                                st.evals += 1
+                                try:
+                                    rd, cd = account_descriptors(xk, f"m/{purpose}h/{coin}h/{account}h", acct.fp)  # a key below the root cannot name its master: the caller does
+                                except errs as e:
+                                    st.violation("C14/bip44/account-descriptors-refused", {"purpose": purpose, "network": net, "from": sname, "key": keyform}, repr(e)[:80], "two descriptors")
+                                    continue
+                                for b, d in ((0, rd), (1, cd)):
+                                    for i in (0, 5, 2**31 - 1):
+                                        exp = mk[purpose](acct.child_pub([b, i]))
+                                        try:
+                                            got = d.script_pub_key(i).script
+                                        except errs as e:
+                                            got = None
+                                        if got != exp:
+                                            st.violation("C14/bip44/account-descriptor-script-differs", {"purpose": purpose, "network": net, "from": sname, "branch": b, "index": i}, got.hex()[:30] if got else None, exp.hex()[:30])
+                                try:
+                                    reqs = core_import.account_import_requests(rd, cd, 0, key_range=(0, 99))
+                                    texts = [r["desc"] for r in reqs]
+                                    body = [t.split("#")[0] for t in texts]
+                                    if [t.split("#")[1] for t in texts] != [ref_checksum(x) for x in body] or [r["internal"] for r in reqs] != [False, True] or any(r.get("range") != [0, 99] for r in reqs):
+                                        st.violation("C14/core-import/request-fields", {"purpose": purpose, "network": net}, [(r["desc"][-9:], r["internal"], r.get("range")) for r in reqs], "checksummed text, receive then change, range [0, 99]")
+                                    if [str(rd).split("#")[0], str(cd).split("#")[0]] != body:
+                                        st.violation("C14/core-import/text-is-not-the-descriptor", {"purpose": purpose, "network": net}, body[0][:40], str(rd)[:40])
+                                except errs as e:
+                                    st.violation("C14/core-import/refused", {"purpose": purpose, "network": net}, repr(e)[:80], "two requests")
+                    # the coin type has to agree with the key's network
+                    st.evals += 1
+                    wrong = 1 - coin
+                    try:
+                        bip44.address_from_der_path(_xkey_text(Tree(seed, path=()), net, True), f"m/{purpose}h/{wrong}h/0h/0/0")
+                        st.violation("C14/bip44/coin-type-of-another-network-accepted", {"purpose": purpose, "network": net}, "address", "refused")
+                    except errs:
+                        pass
+    # range arithmetic of the import helpers
+    for have in (None, (0, 10), (5, 20), (0, 999)):
+        for want in ((0, 0), (0, 10), (3, 30), (100, 2000)):
+            st.evals += 1
+            try:
+                got = core_import.widened_range(want, have)
+            except errs as e:
+                st.violation("C14/core-import/widened-range-refused", {"have": have, "want": want}, repr(e)[:60], "a range")
+                continue
+            exp = want if have is None else (min(have[0], want[0]), max(have[1], want[1]))
+            if not (got[0] <= exp[0] and got[1] >= exp[1]):   # never narrower than either; how much wider is Core's keypool policy
+                st.violation("C14/core-import/widened-range-narrower", {"have": have, "want": want}, got, exp)
+    return st
+
+
+def _xkey_text(t, net, prv):
+    """Serialize a Tree node as an extended key text (depth/parent/index of its own path)."""
+    v = VERSIONS[net][1 if prv else 0]
+    depth = len(t.path)
+    parent = t.parent if depth else bytes(4)
+    index = t.path[-1] if depth else 0
+    body = v + bytes([depth]) + parent + index.to_bytes(4, "big") + t.c + ((b"\x00" + t.k.to_bytes(32, "big")) if prv else B32.ser(t.K))
+    return A.b58check_encode(body)
+
+
+SUBS = [("derive", derive), ("special_forms", special_forms), ("corruption", corruption), ("multipath", multipath), ("wallets", wallets), ("accounts_and_import", accounts_and_import)]
